@@ -135,6 +135,30 @@ def run(repo, rep, tier):
         rep.finding("R17.2", call, base_call or call.node, "the miss path does not call `super().__call__(*args, **kwds)` with the "
                     "arguments unchanged: the cached wrapper returns something other than the underlying function",
                     stmt="base call on miss")
+    # the memo key is committed only after the underlying call has returned: if that call raises, the key of the failed call
+    # must not stay paired with the result of an earlier call
+    base_node = None
+    key_stores = []
+    for nid in miss:
+        n = g.nodes[nid]
+        if n.kind != "stmt":
+            continue
+        if base_call is not None and any(x is base_call for x in ast.walk(n.ast)):
+            base_node = n
+        for t in ast.walk(n.ast):
+            if isinstance(t, ast.Attribute) and isinstance(t.ctx, ast.Store) and isinstance(t.value, ast.Name) and t.value.id == sn \
+                    and t.attr in read and not any(x is base_call for x in ast.walk(n.ast)):
+                key_stores.append((n, t.attr))
+    if base_node is not None:
+        dom = g.dominators()
+        for n, attr in key_stores:
+            ok = base_node.id in dom.get(n.id, set())
+            r2.ob(ok, f"memo attribute {attr} stored after the base call")
+            if not ok:
+                rep.finding("R17.2", call, n.ast, f"`{sn}.{attr}` is stored before the underlying function is called: if that call raises, the memo "
+                            f"pairs the arguments of the failed call with the result of the previous successful call, and the next call "
+                            f"with the same arguments returns that stale result instead of what the function returns",
+                            stmt=f"memo key {attr} stored before the call")
     # argument comparisons in the hit condition use exact, shape-sensitive equalities only (enumerated idioms, one reason each)
     EXACT = {"array_equal": "numpy: same shape and same elements"}
     for cl in ast.walk(test.ast):
@@ -232,6 +256,33 @@ def wrapper_rules(repo, rep, r3, um):
     ser, cac, nam = um.functions["serializable"], um.functions["cached"], um.functions["named"]
     for f in (ser, cac, nam):
         rep.analysed_functions.add(f.construct)
+    # commutation of named() with cached()/serializable(): the constructor derives a default name from the expression (its text,
+    # the function's __name__) when none is given; cached(x) / serializable(x) therefore carry a non-None name for strings and
+    # def-functions.  If named()'s "second name" guard only asks `name is not None`, a FIRST explicit name applied after
+    # cached()/serializable() raises, although the same name applied before them is accepted: the wrappers do not commute.
+    ufc = um.classes.get("UserFcn")
+    init = repo.own_method(ufc, "__init__") if ufc is not None else None
+    if init is None:
+        raise AnalysisError("UserFcn.__init__ not found")
+    sn0 = init.params[0]
+    namep = init.params[2] if len(init.params) > 2 else "name"
+    derived = [n for n in walk_local_stmt(init.node) if isinstance(n, ast.Assign) and any(
+        isinstance(t, ast.Attribute) and t.attr == "name" and isinstance(t.value, ast.Name) and t.value.id == sn0 for t in n.targets)
+        and not (isinstance(n.value, ast.Name) and n.value.id == namep)]
+    guard = None
+    for st in nam.node.body:
+        if isinstance(st, ast.If) and any(isinstance(b, ast.Raise) for b in st.body):
+            guard = st
+    if guard is not None and derived:
+        txt = ast.unparse(guard.test)
+        distinguishes = any(isinstance(x, ast.Compare) and any(isinstance(o, (ast.Eq, ast.NotEq)) for o in x.ops) and ".name" in ast.unparse(x)
+                            for x in ast.walk(guard.test)) or "default" in txt.lower()
+        r3.ob(distinguishes, "named(): the second-name guard tells a derived default name from an explicit one")
+        if not distinguishes:
+            rep.finding("R17.3", nam, guard, f"UserFcn.__init__ derives a default name from the expression ({', '.join(norm(d)[:40] for d in derived[:2])}), and named() "
+                        f"rejects every wrapper whose name is not None (`{txt[:60]}`): named(n, cached(s)) and named(n, serializable(s)) raise for a "
+                        f"string expression or def-function s, although cached(named(n, s)) is accepted - the wrappers do not commute",
+                        stmt="second-name guard fires on derived default names")
 
     def branches(f, param):
         """[(isinstance class name or None, returned expr)] in order"""
